@@ -240,6 +240,16 @@ pub fn run(ctx: &mut Ctx) {
                     let t: String = "ěšж".chars().cycle().take(len).collect();
                     field_case(ctx, &ls, compressed, kind, path, b.as_ref(), &t);
                 }
+                // texts whose UTF-8 form is longer than their wire form (no codepage switch needed / one switch):
+                // the width arithmetic must be done on the encoded bytes, not on the Rust string
+                if len % 2 == 0 || len + 2 >= n / 2 && len <= n / 2 + 2 {
+                    let t: String = "äÖüß".chars().cycle().take(len).collect();
+                    field_case(ctx, &ls, compressed, kind, path, b.as_ref(), &t);
+                }
+                if len % 6 == 2 || len + 1 >= n / 3 && len <= n / 3 + 2 {
+                    let t: String = "日本語".chars().cycle().take(len).collect();
+                    field_case(ctx, &ls, compressed, kind, path, b.as_ref(), &t);
+                }
             }
             nul_case(ctx, &ls, compressed, kind, path, b.as_ref());
         }
